@@ -32,6 +32,11 @@ def scenarios(ctx: Ctx, res: Result):
         if any(o.startswith('dup') for o in sc['ops']):
             res.count('newer_first_family')
             yield sc
+    # re-delivery from the per-peer backlog of successive states of ONE run (progress inside a looping block included: same
+    # block, longer history) after 2-3 failed or unacknowledged sends
+    for sc in gc.repeated_failure_family():
+        res.count('repeated_failure_family')
+        yield sc
     race = list(gc.loop_race_family())
     for sc in (race if ctx.thorough else ctx.rng.sample(race, 120)):
         res.count('loop_race_family')
